@@ -407,6 +407,9 @@ ParseFrom(s, d, k) == IF k > Len(d) THEN s ELSE ParseFrom(Line(s, d[k], k), d, k
 Parse(d) == ParseFrom(Empty, d, 1)
 
 ---------------------------------------------------------------------------
+(* alphabets that a configuration file cannot spell (backslash) *)
+W1 == {"a", "a  ", "a ", "a\\", "===  ", "---  ", "```  ", "# a  ", "> a  ", "- a  ", "", "  ", "# a #  ", "***  "}
+
 (* the behaviour: one action per line read.  Exhaustive exploration visits every line sequence up to MaxLines (sharded by the
    first line over parallel TLC processes); simulation mode reads random longer documents *)
 Ordered == SetToSeq(Alphabet)
@@ -456,7 +459,15 @@ HtmlOf(s, n, tight) ==
     LET nd == s.nodes[n]
         ks == Kids(s, n)
         inner(t) == Join([k \in DOMAIN ks |-> HtmlOf(s, ks[k], t)], "\n")
-        txt == InlineHtml(RStrip(Join(EffText(nd), "\n")), AllDefs(s)) IN
+        (* the lines of a text: spaces at the end of a line go; two or more of them, or a backslash, before a further line make a hard
+           line break *)
+        lns == EffText(nd)
+        TextLineHtml(i) == LET l == lns[i] t == RStrip(l) IN
+                           IF i < Len(lns) /\ Len(l) - Len(t) >= 2 THEN InlineHtml(t, AllDefs(s)) \o "<br />"
+                           ELSE IF i < Len(lns) /\ t # "" /\ Ch(t, Len(t)) = "\\" /\ (Len(t) = 1 \/ Ch(t, Len(t) - 1) # "\\")
+                                THEN InlineHtml(Take(t, Len(t) - 1), AllDefs(s)) \o "<br />"
+                           ELSE InlineHtml(t, AllDefs(s))
+        txt == Join([i \in DOMAIN lns |-> TextLineHtml(i)], "\n") IN
     CASE nd.t = "Document"      -> inner(FALSE)
       [] nd.t = "Paragraph"     -> IF tight THEN txt ELSE "<p>" \o txt \o "</p>"
       [] nd.t \in {"Heading", "SetextHeading"} -> "<h" \o NatStr(nd.lv) \o ">" \o txt \o "</h" \o NatStr(nd.lv) \o ">"
@@ -500,7 +511,7 @@ Nested == \A i \in 2..Len(st.nodes) : st.nodes[st.nodes[i].p].ln <= st.nodes[i].
 (* design-level laws, checked on every document *)
 Quoted(d) == [i \in DOMAIN d |-> "> " \o d[i]]
 (* C04 (block quotes): putting "> " before every line wraps the parse in one block quote *)
-LawsOn == IOEnv.LAWS # "off"        \* (C13 re-reads the same documents for their line numbers only)
+LawsOn == IF "LAWS" \in DOMAIN IOEnv THEN IOEnv.LAWS # "off" ELSE TRUE        \* (C13 re-reads the same documents for their line numbers only)
 QuoteLaw ==
     (LawsOn /\ doc # << >>) =>
         LET q == Parse(Quoted(doc)) ks == Kids(q, 1) IN
@@ -513,7 +524,8 @@ QuoteLaw ==
    thematic break ("- " before "- -"), the coincidence the specification resolves the other way *)
 Itemised(d) == [i \in DOMAIN d |-> IF i = 1 THEN "- " \o d[1] ELSE IF IsBlank(d[i]) THEN d[i] ELSE "  " \o d[i]]
 ListLaw ==
-    (LawsOn /\ doc # << >> /\ doc[1] # "" /\ Ch(doc[1], 1) # " " /\ ~IsHr("- " \o doc[1]) /\ ~IsBlank(doc[Len(doc)])) =>
+    (LawsOn /\ doc # << >> /\ doc[1] # "" /\ Ch(doc[1], 1) # " " /\ ~IsHr("- " \o doc[1]) /\ ~IsBlank(doc[Len(doc)])
+        /\ \A i \in DOMAIN doc : IsBlank(doc[i]) => doc[i] = "") =>        \* (how a whitespace-only line is indented is not said: outside the law, as in C04)
         LET q == Parse(Itemised(doc)) ks == Kids(q, 1) IN
         /\ Len(ks) = 1 /\ q.nodes[ks[1]].t = "List"
         /\ Len(Kids(q, ks[1])) = 1
